@@ -215,6 +215,9 @@ func (t *Transport) decodeFromWithCompression(rd io.Reader) (int, []byte, error)
 	if err := frd.Close(); err != nil {
 		return 0, nil, err
 	}
+	if err := drain(ird); err != nil {
+		return 0, nil, err
+	}
 	return ird.ReadBytes, m, nil
 }
 
@@ -235,7 +238,18 @@ func (t *Transport) decodeFromWithContextTakeover(rd io.Reader) (int, []byte, er
 	if err := frd.Close(); err != nil {
 		return 0, nil, err
 	}
+	if err := drain(ird); err != nil {
+		return 0, nil, err
+	}
 	return ird.ReadBytes, m, nil
+}
+
+// drain reads the rest of the WebSocket message: the deflate stream can end before the message does
+// (for example when the writer ends the message with an empty final fragment), and the backends
+// refuse to hand out the next reader until the previous one was read to EOF.
+func drain(rd io.Reader) error {
+	_, err := io.Copy(io.Discard, rd)
+	return err
 }
 
 func (t *Transport) decode(rd io.Reader) (int, []byte, error) {
